@@ -397,7 +397,7 @@ Lemma round_half_even_Z : forall z, round_half_even (inject_Z z) = z.
 Proof.
   intros z. unfold round_half_even.
   assert (E : Qred (inject_Z z) = inject_Z z).
-  { unfold inject_Z, Qred. cbn [Qnum Qden]. rewrite Z.ggcd_1_r || idtac.
+  { unfold inject_Z, Qred.
     pose proof (Z.ggcd_correct_divisors z 1) as H. pose proof (Z.ggcd_gcd z 1) as G.
     destruct (Z.ggcd z 1) as [g [aa bb]]. cbn [fst snd] in *. rewrite Z.gcd_1_r in G. subst g.
     destruct H as [H1 H2]. rewrite Z.mul_1_l in H1, H2. subst aa bb. reflexivity. }
@@ -441,60 +441,74 @@ Proof.
   apply N.eqb_eq in A. apply Bool.eqb_prop in B. split; assumption.
 Qed.
 
-Definition measure (rank : N -> nat) (D : nat) (s : dstate) : nat :=
-  (if st_flag s then 0 else S D) + rank (st_def s).
+Definition measure (rank : N -> nat) (lvl : N -> bool) (D : nat) (s : dstate) : nat :=
+  (if st_flag s then 0 else if lvl (st_def s) then 2 * S D else S D) + rank (st_def s).
 
-(* For EVERY well-formed table the protocol returns or raises: it never runs out of fuel 2D+2
+(* For EVERY well-formed table the protocol returns or raises: it never runs out of fuel 3D+4
    (D = bound on the depth of the class hierarchy), whatever the operand classes.  [OMissing]
    (state absent from the table) is a result of the model, excluded for the probed table by
    the regenerated check. *)
-Lemma run_terminates_aux : forall rank D t, table_ok rank D t = true ->
-  forall fuel s calls revs, rank (st_def s) <= D -> measure rank D s < fuel ->
+Lemma run_terminates_aux : forall rank lvl D t, table_ok rank lvl D t = true ->
+  forall fuel s calls revs, rank (st_def s) <= D -> measure rank lvl D s < fuel ->
   out_of (run fuel t s calls revs) <> OFuel.
 Proof.
-  intros rank D t Hok. induction fuel as [|fuel IH]; intros s calls revs HD Hm; [lia|].
+  intros rank lvl D t Hok. induction fuel as [|fuel IH]; intros s calls revs HD Hm; [lia|].
   simpl. destruct (lookup t s) as [k|e|d|f d|] eqn:L; unfold out_of; simpl; try discriminate.
   - (* super *)
     destruct (lookup_in _ _ _ L ltac:(discriminate)) as [k [Hin He]].
     unfold table_ok in Hok. rewrite forallb_forall in Hok. specialize (Hok _ Hin). simpl in Hok.
-    apply Nat.ltb_lt in Hok. destruct (st_eqb_def _ _ He) as [Ed Ef].
+    apply andb_true_iff in Hok. destruct Hok as [Hok Hl].
+    apply Nat.ltb_lt in Hok. destruct (st_eqb_def _ _ He) as [Ed Ef]. rewrite Ed in Hok, Hl.
     apply IH; simpl.
-    + rewrite Ed in Hok. lia.
-    + unfold measure in *. simpl. rewrite Ed in Hok. destruct (st_flag s); lia.
+    + lia.
+    + unfold measure in *. simpl. destruct (st_flag s); [lia|].
+      destruct (lvl d), (lvl (st_def s)); simpl in Hl; try discriminate; lia.
   - (* reversed *)
     destruct (lookup_in _ _ _ L ltac:(discriminate)) as [k [Hin He]].
     unfold table_ok in Hok. rewrite forallb_forall in Hok. specialize (Hok _ Hin). simpl in Hok.
-    rewrite !andb_true_iff in Hok. destruct Hok as [[Hf Hf'] Hr]. apply Nat.leb_le in Hr.
-    destruct (st_eqb_def _ _ He) as [Ed Ef]. rewrite Ef in Hf. apply negb_true_iff in Hf. subst f.
+    rewrite !andb_true_iff in Hok. destruct Hok as [[Hf Hr] Hf']. apply Nat.leb_le in Hr.
+    destruct (st_eqb_def _ _ He) as [Ed Ef]. rewrite Ef in Hf. apply negb_true_iff in Hf. rewrite Ed in Hf'.
     apply IH; simpl; [assumption|].
-    unfold measure in *. simpl. rewrite Hf in Hm. lia.
+    unfold measure in *. simpl. rewrite Hf in Hm.
+    destruct f; [destruct (lvl (st_def s)); lia|]. simpl in Hf'. apply andb_true_iff in Hf'. destruct Hf' as [H1 H2].
+    apply negb_true_iff in H2. rewrite H1 in Hm. rewrite H2. lia.
 Qed.
 
-Theorem protocol_terminates : forall rank D t, table_ok rank D t = true ->
-  forall s, rank (st_def s) <= D -> out_of (run (2 * D + 3) t s 0 0) <> OFuel.
+Theorem protocol_terminates : forall rank lvl D t, table_ok rank lvl D t = true ->
+  forall s, rank (st_def s) <= D -> out_of (run (3 * D + 4) t s 0 0) <> OFuel.
 Proof.
-  intros. eapply run_terminates_aux; eauto. unfold measure. destruct (st_flag s); lia.
+  intros. eapply run_terminates_aux; eauto. unfold measure. destruct (st_flag s); [lia|]. destruct (lvl (st_def s)); lia.
 Qed.
 
-(* and a well-formed table re-dispatches at most once *)
-Lemma run_revs_aux : forall rank D t, table_ok rank D t = true ->
+(* and a well-formed table re-dispatches at most twice (once if no deferring class is involved) *)
+Definition pot (lvl : N -> bool) (s : dstate) : nat :=
+  if st_flag s then 0 else if lvl (st_def s) then 2 else 1.
+
+Lemma run_revs_aux : forall rank lvl D t, table_ok rank lvl D t = true ->
   forall fuel s calls revs,
-  snd (run fuel t s calls revs) <= revs + (if st_flag s then 0 else 1).
+  snd (run fuel t s calls revs) <= revs + pot lvl s.
 Proof.
-  intros rank D t Hok. induction fuel as [|fuel IH]; intros s calls revs; simpl; [lia|].
+  intros rank lvl D t Hok. induction fuel as [|fuel IH]; intros s calls revs; simpl; [lia|].
   destruct (lookup t s) as [k|e|d|f d|] eqn:L; simpl; try lia.
-  - specialize (IH (mkst d (st_self s) (st_other s) (st_flag s)) (S calls) revs). simpl in IH. exact IH.
   - destruct (lookup_in _ _ _ L ltac:(discriminate)) as [k [Hin He]].
     unfold table_ok in Hok. rewrite forallb_forall in Hok. specialize (Hok _ Hin). simpl in Hok.
-    rewrite !andb_true_iff in Hok. destruct Hok as [[Hf Hf'] Hr].
-    destruct (st_eqb_def _ _ He) as [Ed Ef]. rewrite Ef in Hf. apply negb_true_iff in Hf. subst f.
-    specialize (IH (mkst d (st_other s) (st_self s) true) (S calls) (S revs)). simpl in IH.
-    rewrite Hf. lia.
+    apply andb_true_iff in Hok. destruct Hok as [_ Hl]. destruct (st_eqb_def _ _ He) as [Ed Ef]. rewrite Ed in Hl.
+    specialize (IH (mkst d (st_self s) (st_other s) (st_flag s)) (S calls) revs).
+    unfold pot in *. simpl in IH. destruct (st_flag s); [lia|].
+    destruct (lvl d), (lvl (st_def s)); simpl in Hl; try discriminate; lia.
+  - destruct (lookup_in _ _ _ L ltac:(discriminate)) as [k [Hin He]].
+    unfold table_ok in Hok. rewrite forallb_forall in Hok. specialize (Hok _ Hin). simpl in Hok.
+    rewrite !andb_true_iff in Hok. destruct Hok as [[Hf Hr] Hf'].
+    destruct (st_eqb_def _ _ He) as [Ed Ef]. rewrite Ef in Hf. apply negb_true_iff in Hf. rewrite Ed in Hf'.
+    specialize (IH (mkst d (st_other s) (st_self s) f) (S calls) (S revs)).
+    unfold pot in *. simpl in IH. rewrite Hf.
+    destruct f; [destruct (lvl (st_def s)); lia|]. simpl in Hf'. apply andb_true_iff in Hf'. destruct Hf' as [H1 H2].
+    apply negb_true_iff in H2. rewrite H1. rewrite H2 in IH. lia.
 Qed.
 
-Theorem protocol_one_reversal : forall rank D t, table_ok rank D t = true ->
-  forall fuel s, snd (run fuel t s 0 0) <= 1.
-Proof. intros. pose proof (run_revs_aux _ _ _ H fuel s 0 0). destruct (st_flag s); lia. Qed.
+Theorem protocol_two_reversals : forall rank lvl D t, table_ok rank lvl D t = true ->
+  forall fuel s, snd (run fuel t s 0 0) <= 2.
+Proof. intros. pose proof (run_revs_aux _ _ _ _ H fuel s 0 0). unfold pot in *. destruct (st_flag s); [lia|]. destruct (lvl (st_def s)); lia. Qed.
 
 (* the defect F16 as a table: PointSetRegion.intersect re-dispatches with triedReversed dropped *)
 Theorem dropped_flag_diverges : exists t s, forall fuel, out_of (run fuel t s 0 0) = OFuel.
